@@ -63,6 +63,11 @@ fn parse_tree(
     while !text.is_empty() {
         let mode_end = memchr(b' ', text)
             .ok_or_else(|| ObjectFormatException::new_err(("Missing terminator for mode",)))?;
+        // from_str_radix would also accept a leading '+'; git and the
+        // pure-Python implementation take octal digits only
+        if !text[..mode_end].iter().all(|c| (b'0'..=b'7').contains(c)) {
+            return Err(ObjectFormatException::new_err(("invalid mode",)));
+        }
         let text_str = String::from_utf8_lossy(&text[..mode_end]).to_string();
         let mode = u32::from_str_radix(text_str.as_str(), 8)
             .map_err(|e| ObjectFormatException::new_err((format!("invalid mode: {}", e),)))?;
